@@ -38,9 +38,12 @@ class MapModel:
         return z3.Select(self.present0, key128(s, e))
 
 
+LEN_NAME = "file_len"      # name of the symbol for the input length; the prefix lemma (C18) runs a second execution under another name
+
+
 def reader_env(ctx, fault_free=False, inv=True):
     env = ctx.env
-    env["file_len"] = z3.BitVec("file_len", 64)
+    env["file_len"] = z3.BitVec(LEN_NAME, 64)
     env["pos"] = z3.BitVec("reader_pos0", 64)
     env["fault_free"] = fault_free
     env["inv"] = inv
@@ -611,6 +614,8 @@ def s_size_of(ex, callee, args, dest_ty):
 
 
 def call_closure(ex, callee, clos, cargs):
+    if isinstance(clos, Opaque) and clos.label == "fnitem":
+        return ex.call(clos.data, list(cargs), "", None)
     cf = closure_fn(ex.prog, callee)
     first = cf.params[0][1]
     env = clos if not first.startswith("&") else Ref([clos], 0)
